@@ -66,11 +66,11 @@ pub fn vx_range_incl_contains(lo: u8, hi: u8, x: &u8) -> (r: bool)
 //@   sub R11 `String::from(s2)` => `vx_string_from(s2)` x2
 //@   spec
 //@|    ensures r@.len() <= 65535, // O:ctrl.log_info.bounded (at most as many entries as the 16-bit count announces)
-//@   loop 1
+//@   loop 1 `count_app_ids`
 //@|    invariant
 //@|        offset + avail == payload@.len(), // O:ctrl.log_info.inv.outer (offset never leaves the payload)
 //@|        apids@.len() <= _i, payload@.len() <= usize::MAX,
-//@   loop 2
+//@   loop 2 `count_context_ids`
 //@|    invariant
 //@|        offset + avail == payload@.len(), // O:ctrl.log_info.inv.inner
 //@|        apids@.len() <= _i, payload@.len() <= usize::MAX,
